@@ -9,6 +9,11 @@ open Cav
 
 def fpt (p : Pt Float) : String := s!"{fx p.x},{fx p.y}"
 
+/-- ` trace=<length>,<FNV-1a hash of the active-edge counts>` -/
+def traceWire (t : List Nat) : String :=
+  let h : UInt64 := t.foldl (fun h n => (h ^^^ UInt64.ofNat n) * 1099511628211) 14695981039346656037
+  s!" trace={t.length},{h.toNat}"
+
 def readPolys (n : Nat) (toks : List String) : List (Array (Pt Float)) := Id.run do
   let mut t := toks
   let mut out : List (Array (Pt Float)) := []
@@ -32,15 +37,16 @@ def drvSweep (toks : List String) : String :=
   match toks with
   | n :: rest =>
     let polys := readPolys n.toNat! rest
+    let tr := traceWire (SweepMon.sweepTrace polys)
     match sweepMon polys with
     | .ok (ts, mono) =>
-      s!"ok {ts.length}" ++ String.join (ts.map (fun t => s!" {fpt t.1} {fpt t.2.1} {fpt t.2.2}"))
+      s!"ok {ts.length}" ++ String.join (ts.map (fun t => s!" {fpt t.1} {fpt t.2.1} {fpt t.2.2}")) ++ tr
         ++ (if SweepMon.sweepChk polys then "" else " links=0") ++ (if mono then "" else " mono=0")
-    | .error (.overlap k p) => s!"err overlap {k.name} {fpt p}"
-    | .error (.duplicate p) => s!"err duplicate {fpt p}"
-    | .error .nonFinite => "err nonfinite"
-    | .error .noPolygon => "err nopolygon"
-    | .error (.noPointType p) => s!"err nopointtype {fpt p}"
+    | .error (.overlap k p) => s!"err overlap {k.name} {fpt p}" ++ tr
+    | .error (.duplicate p) => s!"err duplicate {fpt p}" ++ tr
+    | .error .nonFinite => "err nonfinite" ++ tr
+    | .error .noPolygon => "err nopolygon" ++ tr
+    | .error (.noPointType p) => s!"err nopointtype {fpt p}" ++ tr
     | .error (.panic k) => s!"panic {k}"
     | .error .oof => "err oof"
   | _ => "bad-request"
@@ -98,15 +104,16 @@ def drvSweepQ (toks : List String) : String :=
   match toks with
   | n :: rest =>
     let polys := readPolysQ n.toNat! rest
+    let tr := traceWire (SweepMon.sweepTrace polys)
     match sweepMon polys with
     | .ok (ts, mono) =>
-      s!"ok {ts.length}" ++ String.join (ts.map (fun t => s!" {fptq t.1} {fptq t.2.1} {fptq t.2.2}"))
+      s!"ok {ts.length}" ++ String.join (ts.map (fun t => s!" {fptq t.1} {fptq t.2.1} {fptq t.2.2}")) ++ tr
         ++ (if SweepMon.sweepChk polys then "" else " links=0") ++ (if mono then "" else " mono=0")
-    | .error (.overlap k p) => s!"err overlap {k.name} {fptq p}"
-    | .error (.duplicate p) => s!"err duplicate {fptq p}"
-    | .error .nonFinite => "err nonfinite"
-    | .error .noPolygon => "err nopolygon"
-    | .error (.noPointType p) => s!"err nopointtype {fptq p}"
+    | .error (.overlap k p) => s!"err overlap {k.name} {fptq p}" ++ tr
+    | .error (.duplicate p) => s!"err duplicate {fptq p}" ++ tr
+    | .error .nonFinite => "err nonfinite" ++ tr
+    | .error .noPolygon => "err nopolygon" ++ tr
+    | .error (.noPointType p) => s!"err nopointtype {fptq p}" ++ tr
     | .error (.panic k) => s!"panic {k}"
     | .error .oof => "err oof"
   | _ => "bad-request"
